@@ -379,11 +379,15 @@ pub fn run(ctx: &Ctx) -> Collector {
     col.set("selection_instances_with_a_candidate_on_a_5_percent_edge", json!(edge.load(Ordering::Relaxed)));
 
     // forced mask always overrides the selection
-    let sp = spaces::s_cell(false);
+    let mut sp = spaces::s_cell(false);
     let t0 = std::time::Instant::now();
     let viol0 = col.violation_count.load(Ordering::Relaxed);
     let stride = if thorough { 1 } else { 2 };
-    let idx: Vec<usize> = (0..sp.cases.len()).filter(|i| i % stride == 0).collect();
+    let mut idx: Vec<usize> = (0..sp.cases.len()).filter(|i| i % stride == 0).collect();
+    // and where forcing is as bad as it gets for the penalty: uniform payloads that fill the symbol
+    let n0 = sp.cases.len();
+    sp.cases.extend(crate::props::basic::s_forced_mask_extreme().cases);
+    idx.extend(n0..sp.cases.len());
     pool::par_for(idx.len(), |j| {
         let case = &sp.cases[idx[j]];
         let input = case.bytes();
